@@ -1,7 +1,7 @@
 (* C07 - failures are contained: dependents are cancelled, others still run.
    Statements only (model: model/Sched.v); every proof is `exact <lemma>`.                    *)
 From Coq Require Import ZArith List Bool.
-From XV Require Import model.Sched proofs.Sched_lemmas proofs.Sched_inv proofs.Sched_thm.
+From XV Require Import model.Sched proofs.Sched_lemmas proofs.Sched_inv proofs.Sched_thm proofs.Sched_live.
 Import ListNotations.
 Open Scope Z_scope.
 
@@ -22,11 +22,11 @@ Theorem C07_returned_error_is_failed_ancestor : forall W s j k, wf W = true -> r
 Proof. exact returned_error_fanc. Qed.
 Print Assumptions C07_returned_error_is_failed_ancestor.
 
-(* a job all of whose job dependencies succeeded (none of them being a job whose process was left
-   running by an earlier scheduler) ends according to its own exit code *)
+(* a job all of whose job dependencies succeeded, and that was not decided by an earlier run (no
+   marker, no process left running), ends according to its own exit code *)
 Theorem C07_independent_unaffected : forall W s j r, wf W = true -> reachable W s ->
   pc (jobs s j) = PReturned r -> j_marker (spec W j) = false -> adopted W j = None ->
-  (forall k, In (DJob k) (deps W j) -> st (jobs s k) = DONE /\ adopted W k = None) ->
+  (forall k, In (DJob k) (deps W j) -> st (jobs s k) = DONE) ->
   launches (jobs s j) = 1%nat /\ r = code_state (j_code (spec W j)).
 Proof. exact independent_unaffected. Qed.
 Print Assumptions C07_independent_unaffected.
@@ -38,3 +38,24 @@ Theorem C07_exit_reports : forall W s l s', wf W = true -> reachable W s -> step
   (failed s' <> [] <-> exists j, pc (jobs s' j) = PReturned ERROR).
 Proof. exact exit_reports. Qed.
 Print Assumptions C07_exit_reports.
+
+(* containment stated on the workload alone (from the independent audit, finding 9): with
+   okjob / kojob defined on the workload (decided by an earlier run, or own exit code and the
+   dependencies' classes), in every reachable state at rest every submitted job has returned the
+   result of its class; a job not decided by an earlier run whose dependencies all succeed was
+   launched exactly once; a cancelled one never, and carries failure_status DEPENDENCY - whatever the
+   schedule, the submission order, the moment at which failures arrive.  The two classes are exhaustive. *)
+Theorem C07_results_closed : forall W s, wf W = true -> posreq W -> reachable W s ->
+  queue s = [] -> has_pending s W = false ->
+  forall j, spawned (pc (jobs s j)) = true ->
+    (okjob W j -> pc (jobs s j) = PReturned DONE) /\
+    (kojob W j -> pc (jobs s j) = PReturned ERROR) /\
+    (adopted W j = None -> j_marker (spec W j) = false -> (forall k, In (DJob k) (deps W j) -> okjob W k) ->
+       launches (jobs s j) = 1%nat /\ pc (jobs s j) = PReturned (code_state (j_code (spec W j)))) /\
+    (cancelled W j -> launches (jobs s j) = 0%nat /\ pc (jobs s j) = PReturned ERROR /\ fdep (jobs s j) = true).
+Proof. exact results_closed. Qed.
+Print Assumptions C07_results_closed.
+
+Theorem C07_every_job_classified : forall W, wf W = true -> forall j, okjob W j \/ kojob W j.
+Proof. exact every_job_classified. Qed.
+Print Assumptions C07_every_job_classified.
